@@ -372,6 +372,18 @@ fn validate_nameserver_response(
     {
         // get RRs matching the query name or the names it `CNAME`s to
 
+        // the names on the `CNAME` path from the query name: `cname_map` has
+        // every `CNAME` in the section, including ones which have nothing to
+        // do with the question.
+        let mut cname_path = HashSet::new();
+        let mut path_name = &question.name;
+        while let Some(target) = cname_map.get(path_name) {
+            if !cname_path.insert(path_name.clone()) {
+                break;
+            }
+            path_name = target;
+        }
+
         let mut rrs_for_query = Vec::<ResourceRecord>::with_capacity(response.answers.len());
         let mut seen_final_record = false;
         let mut all_unknown = true;
@@ -386,7 +398,7 @@ fn validate_nameserver_response(
             if rtype.matches(question.qtype) && an.name == final_name {
                 rrs_for_query.push(an.clone());
                 seen_final_record = true;
-            } else if rtype == RecordType::CNAME && cname_map.contains_key(&an.name) {
+            } else if rtype == RecordType::CNAME && cname_path.contains(&an.name) {
                 rrs_for_query.push(an.clone());
             }
         }
